@@ -22,6 +22,10 @@ def py_val(v, kind=None):
     return v
 
 
+class PreFalse(Exception):
+    pass
+
+
 class NativeBuilder:
     symbolic = False
 
@@ -109,6 +113,14 @@ class NativeBuilder:
         import astropy.units as u
         return Angle(self.real(name) * u.rad).to(getattr(u, unit))
 
+    def construct(self, clsref, label, *args, **kw):
+        cls = resolve(clsref) if isinstance(clsref, str) else clsref
+        return cls(*args, **kw)
+
+    def assume(self, cond):
+        if not cond:
+            raise PreFalse()
+
     def call(self, fn, *args, **kw):
         return fn(*args, **kw)
 
@@ -195,7 +207,10 @@ def run_contract(cls, target, case_kw, model, clause, verbose=True):
     B = NativeBuilder(model)
     setup = cls.__dict__['setup']
     setup = getattr(setup, '__func__', setup)
-    args = setup(B, **case_kw)
+    try:
+        args = setup(B, **case_kw)
+    except PreFalse:
+        return 'pre_false', 'counterexample does not satisfy a set-up assumption natively'
     pool = dict(args)
     for k, v in model.items():
         if k.startswith('forall.'):
